@@ -68,7 +68,15 @@ def spec_compare(impl_line, spec_line):
         cls = 'ancestor-pair'
     elif nxt & 2 and (a.startswith('EV:') or b.startswith('EV:') or a == 'MS{' or b == 'MS{'):
         cls = 'same-source'
+    if cls == 'other' and diags and (diags[0] & 8):
+        cls = 'history-overlap'
     return (cls, i, va, vb, di, ds)
+
+
+def history_overlap(spec_line):
+    """static diagnostic 8 of the Spec run: a deep history's parent has a descendant owning a history"""
+    _, diags = strip_diag(canon(spec_line)[0])
+    return bool(diags) and bool(diags[0] & 8)
 
 
 def configs_of(toks):
